@@ -3,7 +3,8 @@
 (* repository follows the real chain (fixture headers) with no side branches;  *)
 (* each record is one locator: the tip height, the requested maximum and the   *)
 (* entries as true heights on our chain (a hash that is a configured split     *)
-(* fork point below our history is marked "split" with its configured height). *)
+(* fork point below our history is marked "split" with its configured height); *)
+(* held is the lowest height whose header the repository has in memory.         *)
 EXTENDS Integers, Sequences, FiniteSets, TLC, Json
 VARIABLE l
 Trace == ndJsonDeserialize("trace.ndjson")
@@ -12,9 +13,14 @@ Heights(r) == [i \in 1..Len(r.entries) |-> r.entries[i].h]
 ChainPart(r) == SelectSeq(r.entries, LAMBDA e : e.kind = "chain")
 Verdict(r) ==
     LET hs == Heights(r)
-    IN IF Len(hs) = 0 THEN "empty locator"
+    IN IF Len(hs) = 0 THEN (IF r.tip - 1 < r.held THEN "ok" ELSE "empty locator")
        ELSE IF \E i \in 1..Len(hs) : r.entries[i].kind = "unknown" THEN "hash that is neither on the best chain nor a split fork point"
        ELSE IF \E i, j \in 1..Len(hs) : i # j /\ hs[i] = hs[j] THEN "duplicate hash"
+       \* nothing below the tip is held (the repository was started from a mocked latest header): no best-chain
+       \* hash can be offered - in particular not the tip itself, a same-chain peer would answer from the header
+       \* after it - only the configured split fork points
+       ELSE IF r.tip - 1 < r.held /\ Len(ChainPart(r)) > 0 THEN "best-chain hash offered although nothing below the tip is held"
+       ELSE IF r.tip - 1 < r.held THEN "ok"
        ELSE IF r.tip > 0 /\ hs[1] # r.tip - 1 THEN "does not begin with the tip's parent"
        ELSE IF \E i \in 1..(Len(hs) - 1) : hs[i] <= hs[i + 1] THEN "hashes not newest first"
        \* the split fork points may come on top of the requested maximum
